@@ -102,6 +102,12 @@ class Env:
     def __enter__(self):
         fggs = import_repo()
         import torch
+        import gc
+        # object deaths must not depend on process history: collect now, then only reference counting frees objects
+        # during the run (cyclic garbage -- e.g. caught exceptions holding their frames -- waits for the next run)
+        gc.collect()
+        self._gc_was_enabled = gc.isenabled()
+        gc.disable()
         self.torch = torch
         cfg = self.cfg
         M = sys.modules
@@ -161,6 +167,9 @@ class Env:
             except Exception:
                 pass
         self._undo.clear()
+        import gc
+        if getattr(self, '_gc_was_enabled', True):
+            gc.enable()
         self.torch.set_default_dtype(self._old_dtype)
         return False
 
